@@ -501,9 +501,21 @@ def validateScalar (vs : List Validation) (v : Scalar) : Option Nat :=
         | none => none
   | _ => none
 
+/-- equality as the uniqueness validation sees it (`reflect.DeepEqual` on the bound items, i.e. Go's `==`
+on floats): `-0` and `+0` are the same number, a NaN equals nothing — not even itself; everything else
+by value. -/
+def Scalar.sameValue : Scalar → Scalar → Bool
+  | .float w (some a), .float w' (some b) =>
+    let expAll := if w == 32 then 0x7F800000 else 0x7FF0000000000000
+    let signBit := if w == 32 then 0x80000000 else 0x8000000000000000
+    let mag (x : Nat) := x % signBit
+    let isNaN (x : Nat) := decide (mag x > expAll)
+    w == w' && !isNaN a && !isNaN b && (a == b || (mag a == 0 && mag b == 0))
+  | x, y => x == y
+
 def hasDup : List Scalar → Bool
   | [] => false
-  | x :: r => r.contains x || hasDup r
+  | x :: r => r.any (Scalar.sameValue x) || hasDup r
 
 def validateList (vs : List Validation) (items : List Scalar) : Option Nat :=
   match vs.find? (fun x => match x with | .minItems n => items.length < n | _ => false) with
